@@ -11,7 +11,8 @@
 EXTENDS Integers, Sequences, FiniteSets, TLC
 
 CONSTANTS Universe,     \* sequence of all paths, bytewise sorted, Universe[1] = "."
-          ParentMap     \* [path |-> parent path]; ParentMap["."] = "."
+          ParentMap,    \* [path |-> parent path]; ParentMap["."] = "."
+          BaseMap       \* [path |-> last component of the path]
 
 Paths == {Universe[i] : i \in 1..Len(Universe)}
 IdxOf(p) == CHOOSE i \in 1..Len(Universe) : Universe[i] = p
@@ -27,6 +28,9 @@ Absent == [t |-> "none", c |-> 0, sz |-> 0, mt |-> 0, ns |-> 0, perm |-> 0, tgt 
 Exists(fs, p) == fs[p].t # "none"
 IsDir(fs, p) == fs[p].t = "dir"
 IsSpecial(ty) == ty \in {"fifo", "sock", "chr", "blk"}
+IsDevType(ty) == ty \in {"chr", "blk"}
+(* is an entry of this type created under the given options (--devices / --specials)? *)
+WantsSpecial(ty, o) == (IsDevType(ty) /\ o.dv) \/ (ty \in {"fifo", "sock"} /\ o.sp)
 
 RemoveAll(fs, p) == [q \in Paths |-> IF q \in Subtree(p) THEN Absent ELSE fs[q]]
 
@@ -35,7 +39,7 @@ WellFormedTree(fs) == /\ fs["."].t = "dir"
                       /\ \A p \in Paths : Exists(fs, p) /\ p # "." => IsDir(fs, ParentMap[p])
 
 (* ------------------------------------------------------------ options *)
-(* opts: [r, l, p, t, D, c, I, n, del : BOOLEAN] *)
+(* opts: [r, l, p, t, dv, sp, c, I, n, del : BOOLEAN]   (dv = --devices, sp = --specials; -D = both) *)
 
 (* ------------------------------------------------------------ the update rule (C12) *)
 (* e: file-list entry [name, t, c, sz, mt, perm, tgt]; st: destination node *)
@@ -78,6 +82,27 @@ NodeMatches(exp, obs) == NodeMatchesJ(exp, obs, AllAspects)
 TreeMatchesJ(exp, obs, J) == \A p \in Paths : NodeMatchesJ(exp[p], obs[p], J)
 TreeMatches(exp, obs) == TreeMatchesJ(exp, obs, AllAspects)
 
+(* ------------------------------------------------------------ filter rules and the sender's list (C13) *)
+(* a rule: [inc |-> BOOLEAN, pat |-> plain name]; the first rule whose       *)
+(* pattern equals the entry's last path component decides; an excluded      *)
+(* directory takes its subtree with it; the transfer root is never filtered *)
+MatchIdx(rules, p) == {i \in 1..Len(rules) : rules[i].pat = BaseMap[p]}
+FirstMatch(rules, p) == IF MatchIdx(rules, p) = {} THEN 0
+                        ELSE CHOOSE i \in MatchIdx(rules, p) : \A j \in MatchIdx(rules, p) : i <= j
+ExcludedSelf(rules, p) == p # "." /\ FirstMatch(rules, p) # 0 /\ ~rules[FirstMatch(rules, p)].inc
+Excluded(rules, p) == \E a \in Paths : IsAncestorOrSelf(a, p) /\ ExcludedSelf(rules, a)
+Selected(src, rules) == [p \in Paths |-> IF Excluded(rules, p) THEN Absent ELSE src[p]]
+(* names the user's exclude rules protect from --delete on the receiving side *)
+Protected(rules) == {p \in Paths : ExcludedSelf(rules, p)}
+(* the entries of a tree as a (sorted) file list, as a sender walking it lists them *)
+EntryOf(name, n) == [name |-> name, t |-> n.t, c |-> n.c, sz |-> n.sz, mt |-> n.mt, perm |-> n.perm, tgt |-> n.tgt]
+ListOfTree(tree) == LET F[k \in 0..Len(Universe)] ==
+                          IF k = 0 THEN <<>>
+                          ELSE IF Exists(tree, Universe[k]) THEN Append(F[k-1], EntryOf(Universe[k], tree[Universe[k]])) ELSE F[k-1]
+                    IN F[Len(Universe)]
+(* what a sender lists for "tree/" with the given options and rules *)
+SenderList(src, o, rules) == IF o.r THEN ListOfTree(Selected(src, rules)) ELSE <<>>
+
 (* ------------------------------------------------------------ the delete pass (C09) *)
 ListedNames(list) == {list[i].name : i \in 1..Len(list)}
 HasTopDir(list) == "." \in ListedNames(list)
@@ -108,7 +133,7 @@ GenStep(fs, e, o) ==
     ELSE IF st.t = "lnk" /\ st.tgt = e.tgt THEN [fs |-> fs, req |-> "none"]
     ELSE [fs |-> [RemoveAll(fs, e.name) EXCEPT ![e.name] = LnkAttrs(e)], req |-> "none"]
   ELSE IF IsSpecial(e.t) THEN
-    IF ~o.D THEN [fs |-> fs, req |-> "none"]
+    IF ~WantsSpecial(e.t, o) THEN [fs |-> fs, req |-> "none"]
     ELSE IF st.t = e.t THEN [fs |-> fs, req |-> "none"]
     ELSE [fs |-> [fs EXCEPT ![e.name] = SpecAttrs(e, o)], req |-> "none"]
   ELSE \* regular file
